@@ -228,6 +228,8 @@ def conv_gen(g):
         g["rule"] = norm_rule(g["rule"])
     if g["kind"] in ("qpages", "qcrawled"):
         g = {"kind": "qpages", "ps": list(g["ps"]), "oc": g["kind"] == "qcrawled"}
+    elif g["kind"] in ("qoutlinks", "qinlinks"):
+        g = {"kind": "qlinks", "ps": list(g["ps"]), "out": g["kind"] == "qoutlinks"}
     elif g["kind"] == "qnet":
         g = {"kind": "qnet", "out": bool(g["out"]), "auto": bool(g["auto"])}
     elif g["kind"].startswith("q"):
